@@ -262,7 +262,7 @@ func gen(t *rapid.T) Case {
 	if h.Thorough() {
 		depth = rapid.IntRange(2, 4).Draw(t, "depth")
 	}
-	o := schemagen.Options{Depth: depth, Formats: true}
+	o := schemagen.Options{Depth: depth, Formats: true, OddNames: true}
 	schemas := map[string]string{}
 	var inlined map[string]any // the same schema with references inlined, for value generation
 	switch rapid.IntRange(0, 3).Draw(t, "shape") {
